@@ -115,11 +115,19 @@ Open Scope Z_scope.
 Definition alias_bytes (op : Z) (buf : list Z) (hl gl : Z) (spare : bool) : list Z * list Z :=
   let n := length buf in
   let hl' := Z.to_nat hl in let gl' := Z.to_nat gl in
-  let host := mkslc 0%nat 2%nat hl' (if spare then (n - 2)%nat else hl') in
-  let guest := mkslc 0%nat (2 + hl')%nat gl' (if spare then (n - 2 - hl')%nat else gl') in
+  (* ops 5, 6: the guest lies before the host, [pad(2) | guest(gl) | host(hl) | spare] *)
+  let swapped := (op =? 5) || (op =? 6) in
+  let host := if swapped then mkslc 0%nat (2 + gl')%nat hl' (if spare then (n - 2 - gl')%nat else hl')
+              else mkslc 0%nat 2%nat hl' (if spare then (n - 2)%nat else hl') in
+  let guest := if swapped then mkslc 0%nat 2%nat gl' (if spare then (n - 2)%nat else gl')
+               else mkslc 0%nat (2 + hl')%nat gl' (if spare then (n - 2 - hl')%nat else gl') in
   let h := [buf] in
   let '(h', r) :=
     if op =? 0 then ins_new 0 h host (Nat.div hl' 2) guest
+    else if op =? 3 then ins_new 0 h host hl' guest          (* insert at the end of the host *)
+    else if op =? 4 then ins_new 0 h host 0%nat guest        (* insert at its start *)
+    else if op =? 5 then ins_new 0 h host hl' guest
+    else if op =? 6 then cat_new h host guest
     else if op =? 1 then rot_new 0 h host (hl' - 2)%nat
     else cat_new h host guest in
   (array h' 0%nat, view h' r).
